@@ -22,6 +22,10 @@ CHECKS = {
          "TLC builds every simple polygon with up to MaxV vertices on the lattice and checks, for every probe of the doubled lattice, that the transcribed winding-number code equals the definitional closed-polygon predicate; each polygon is replayed as the footprint of the three area-feature types with exact (integer-metre) boundary probes and depth-interval probes. Plume tables: TLC decides interval, fraction and cyclic-angle branch exactly and emits the ellipse function as a term the harness evaluates.",
          "4x4 lattice, 3-4 vertices quick / 5 thorough; plume tables of 1-2 sections (3 simulated); membership within 1e-6 of a curved boundary not asserted; " + NOTE,
          "TLA+/TLC (Extent.tla Mech=Prop, Plume.tla) + replay of every polygon / table"),
+ "C05": ("exploration",
+         "Exploration with a model-derived oracle: Models.tla states each documented closed form as a symbolic term, TLC enumerates model x feature type x sentinel pattern x relation of the model's depth range to the feature's x operation and resolves every discrete branch exactly (which sentinel means 'adiabatic / global', which bounds are the local top and bottom, inside or outside the model's own range); the real library is queried and compared with the term evaluated by a generic evaluator (1e-9 relative; 1e-8 for the 100-term series).",
+         "TLC decides the case analysis, not the arithmetic; 317 cases; smooth compositions, tian2019, mass conserving and slab plate-model temperatures have no documented closed form and are not claimed; " + NOTE,
+         "TLA+ case enumeration with symbolic closed-form terms (Models.tla) + replay with numeric comparison"),
  "C06": ("model_checking",
          "Slab.tla constructs the slab / fault surface of a straight trench in the perpendicular plane with Pythagorean dips, so that for every lattice point TLC decides exactly which segment carries the foot, the signed distance from and the distance along the surface, and membership (thickness and top truncation varying linearly along each segment); every world x point is replayed against World::distance_to_plane (1e-6 relative + 1 m) and against membership (composition and tag), leaving out only points where an inequality is tight or the nearest segment is ambiguous.",
          "1 segment (quick) / 1-2 segments (thorough), 5 dips incl. vertical and overturned, 3 trench directions, both dip sides, min depth 0 / 100 km, slabs and faults; Cartesian straight segments only; " + NOTE,
